@@ -104,7 +104,7 @@ def verify(cand, pid):
                 pass
         t = time.time()
         rc, o = sh("go test -vet=off -count=1 -timeout 90m ./... 2>&1 | grep -v 'no test files'", cwd=wt, timeout=7200)
-        failed = re.findall(r"^FAIL\s+(\S+)", o, re.M)
+        failed = [x for x in re.findall(r"^FAIL[ \t]+(\S+)", o, re.M) if "/" in x]
         res["suite_first_run_failed_pkgs"] = failed
         still = []
         for pkg in failed:   # timing-sensitive tests (completion) flake on a loaded machine: re-run the package alone, twice
